@@ -236,10 +236,10 @@ func Key(scheme string, id hotstuff.ID) hotstuff.PrivateKey {
 		}
 		key = pk
 	case crypto.NameBLS12:
-		pk, err := crypto.GenerateBLS12PrivateKey()
-		if err != nil {
-			panic(err)
-		}
+		// deterministic: 31 bytes of a hash are always below the group order
+		seed := sha256.Sum256([]byte(k))
+		pk := &crypto.BLS12PrivateKey{}
+		pk.FromBytes(seed[:31])
 		key = pk
 	default:
 		panic("unknown scheme " + scheme)
